@@ -199,6 +199,16 @@ func genC11(r *Rng, tier string, idx int) *Plan {
 			p.Ops = append(p.Ops, Op{ID: nid(), Kind: "nav", Path: t}) // the browser follows the redirect if the session ended
 		}
 	}
+	if idx%3 == 1 {
+		// a failing exchange together with a failing store write in the same check
+		p.Mode = "exchange-and-store-faults"
+		for i := 0; i < 3; i++ {
+			p.Faults = append(p.Faults, Fault{Site: "idp.token", Nth: r.Range(2, 8), Kind: r.Pick([]string{"500", "reset-before", "503"})})
+		}
+		for i := 0; i < 3; i++ {
+			p.Faults = append(p.Faults, Fault{Site: "store.SetAuthorizationState", Nth: r.Range(2, 6), Kind: r.Pick([]string{"err-before", "err-after"})})
+		}
+	}
 	if idx%3 == 0 {
 		// lost replies: the provider processed (rotated) but the answer never arrived
 		nf := r.Range(1, 2)
@@ -273,16 +283,32 @@ func ntC13(w *World) bool {
 
 func genC14(r *Rng, tier string, idx int) *Plan {
 	var p *Plan
-	switch idx % 4 {
+	switch idx % 6 {
 	case 0, 1:
 		p = genC01(r, tier, 1) // fault-injecting histories
 		p.Mode = "fault-injecting"
 	case 2:
-		p = genC09(r, tier, idx/4)
+		p = genC09(r, tier, idx/6)
 		p.Mode = "concurrent"
-	default:
+	case 3:
 		p = genC11(r, tier, 0)
 		p.Mode = "refresh+lost-replies"
+	case 4:
+		// malformed token-endpoint answers that still carry real tokens, claims of unexpected type
+		p = genC15(r, tier, 1+6*(idx/6))
+		if (idx/6)%2 == 1 {
+			p = genC15(r, tier, 2+6*(idx/6))
+		}
+		p.Mode = "malformed-idp-answers"
+	default:
+		p = genC03(r, tier, idx/6) // plain logins over the configuration x provider product (discovery documents incl.)
+		p.Spec.Filters[0].Discovery = true
+		p.Mode = "logins"
+		for i := range p.Ops {
+			if p.Ops[i].Kind == "adv-frac" {
+				p.Ops[i].Kind, p.Ops[i].D = "adv", 30
+			}
+		}
 	}
 	// error paths with debug logging exercise the request/response dumpers too
 	if r.Chance(0.3) {
